@@ -762,6 +762,7 @@ def t_nbytes(row):
 
 def t_row_new(row):
     """`Row.__new__` statement by statement -> `Except String (List PyVal)`: `if isinstance(data, dict):`, `if type(data) is not dict:`,
+    `if not isinstance(data, (dict, tuple, list)) and isinstance(data, Mapping):` (and / or / not over such tests),
     `data = dict(data)`, `data = extract_dict_columns(data, cls._fields)`, `x = super().__new__(cls, data)`, `return x`."""
     fn = row.func("__new__", "Row")
     if [a.arg for a in fn.args.args] != ["cls", "data"] or fn.args.vararg or fn.args.kwarg or fn.args.kwonlyargs or fn.args.defaults:
@@ -771,9 +772,29 @@ def t_row_new(row):
     def is_tuple_new(v):
         return isinstance(v, ast.Call) and _u(v.func) in ("super().__new__", "tuple.__new__") and not v.keywords and [_u(a) for a in v.args] == ["cls", "data"]
 
+    imports = imported_names(row)
+
+    def type_name(t):
+        """a type in `isinstance(data, …)`: the builtins dict / tuple / list, `Mapping` of collections.abc (or typing)"""
+        u = _u(t)
+        if u in ("dict", "tuple", "list") and u not in imports:
+            return u
+        full = imports.get(u) if isinstance(t, ast.Name) else ("%s.%s" % (imports.get(_u(t.value), _u(t.value)), t.attr) if isinstance(t, ast.Attribute) else None)
+        if full in ("collections.abc.Mapping", "typing.Mapping"):
+            return "Mapping"
+        raise Untranslatable("isinstance(data, %s)" % u[:30])
+
     def test(n):
         if _call(n, "isinstance", 2) and _u(n.args[0]) == "data" and _u(n.args[1]) == "dict":
             return "(RowGlue.isDict data = true)"
+        if _call(n, "isinstance", 2) and _u(n.args[0]) == "data":
+            # any other type / tuple of types: `tuple` and `list` are one kind of argument in the model (a sequence of items)
+            ts = [type_name(t) for t in (n.args[1].elts if isinstance(n.args[1], ast.Tuple) else [n.args[1]])]
+            if ("tuple" in ts) != ("list" in ts):
+                raise Untranslatable("isinstance(data, …) tells a tuple from a list")
+            return "(RowGlue.isInst data [%s] = true)" % ", ".join(lean_str(t) for t in ts)
+        if isinstance(n, ast.BoolOp):
+            return "(" + (" ∧ " if isinstance(n.op, ast.And) else " ∨ ").join(test(v) for v in n.values) + ")"
         if isinstance(n, ast.Compare) and len(n.ops) == 1 and _u(n.left) == "type(data)" and _u(n.comparators[0]) == "dict":
             if isinstance(n.ops[0], (ast.Is, ast.Eq)):
                 return "(RowGlue.isExactDict data = true)"
@@ -811,7 +832,7 @@ def t_row_new(row):
 
     body = block(fn.body, 1, frozenset())
     return ("/-- orso/row.py `Row.__new__` statement by statement: `fields` = `cls._fields` (`None` on the class `Row` itself), `data` = the\n"
-            "argument (a tuple of items, or a dictionary); the result is the items of the new row, or the exception -/\n"
+            "argument (a tuple of items, a dictionary, or a mapping that is not a dict); the result is the items of the new row, or the exception -/\n"
             "def row_new (fields : Option (List String)) (data : RowGlue.NewArg) : Except String (List PyVal) :=\n  %s\n" % body)
 
 
